@@ -256,6 +256,18 @@ def run_worker(exe, runs, valgrind=False):
     return events, stats, results
 
 
+def run_fresh(exe, runs, jobs=None):
+    """one fresh worker process per run (cold-start plans)"""
+    outs = pmap(lambda r: run_worker(exe, [r]), runs, jobs or common.NCPU)
+    events, stats, results = [], {}, {}
+    for ev, st, rs in outs:
+        events += ev
+        for k, v in st.items():
+            stats[k] = stats.get(k, 0) + v
+        results.update(rs)
+    return events, stats, results
+
+
 def run_parallel(exe, runs, jobs=None, valgrind=False):
     jobs = jobs or common.NCPU
     shards = [runs[i::jobs] for i in range(jobs)]
@@ -352,6 +364,27 @@ def gen_sweeps(h, cat):
         for i in range(128):
             add("Base|ParseNumber<%s>(grammar)" % t, i)
     return ops
+
+
+def gen_cold(h, rng, nplans, alloc_counts=None):
+    """cold-start plans, each run in its own fresh worker process: the first op executes with no warm-up
+    and its k-th allocation failing (k small, enumerated), so state the library initialises lazily on
+    first use is first filled under the fault; fault-free follow-up ops then run against that state"""
+    names = sorted(h.ops)
+    allocating = [n for n in names if (alloc_counts or {}).get(n, 1) > 0] or names
+    printers = [n for n in names if re.search(r"\|(Print|JSON|XML|YAML)\(", n) or n.startswith("Base|Print") or h.ops[n] & 1]
+    follow_pool = [n for n in names if n.startswith("Base|")] + printers
+    plans = []
+    for i in range(nplans):
+        r = Rng(rng.u64())
+        first = r.choice(printers if (printers and r.below(3)) else allocating)
+        k = i % 8 if r.below(4) else r.below(24)
+        ops = [op(first, r.u64(), fault="cold", fa=k, fb=(1 if r.below(5) == 0 else 0))]
+        ops.append(op(first, r.u64()))                      # the same call again, fault-free
+        for _ in range(r.rng(2, 6)):
+            ops.append(op(r.choice(follow_pool if r.below(4) else names), r.u64()))
+        plans.append(ops)
+    return plans
 
 
 def gen_history(h, rng, nplans, maxops=40):
@@ -561,10 +594,10 @@ def main(tier, seed):
     bigrams = set()
     evaluations = 0
 
-    def execute(label, exe, runs, valgrind=False, build="san"):
+    def execute(label, exe, runs, valgrind=False, build="san", fresh=False):
         nonlocal evaluations
         t = time.time()
-        ev, st, rs = run_parallel(exe, runs, valgrind=valgrind)
+        ev, st, rs = run_fresh(exe, runs) if fresh else run_parallel(exe, runs, valgrind=valgrind)
         by_run = {r[0]: r[1] for r in runs}
         for e in ev:
             if e["kind"] == "infra":
@@ -587,6 +620,8 @@ def main(tier, seed):
                         distinct.add((o["name"], "allocfrom", k))
             elif o["fault"] in ("alloc", "allocfrom") and n > 0:
                 distinct.add((o["name"], o["fault"], o["fa"] % n))
+            elif o["fault"] == "cold" and r["fired"] > 0:
+                distinct.add((o["name"], "cold", o["fa"], o["fb"]))
             elif o["fault"] == "sinkeach":
                 for b in range(5):
                     for m in range(3):
@@ -612,7 +647,12 @@ def main(tier, seed):
     log("  determinism sample: %d plans x 2 worker assignments identical (%d op results)" % (len(det_runs), len(r1)))
     # 1. enumeration: every instance x every single-fault position
     enum_ops = gen_enumeration(hs, rng, draws=(10 if thorough else 2))
-    execute("enumeration", hs.exe, chunked(enum_ops, 0))
+    enum_rs = execute("enumeration", hs.exe, chunked(enum_ops, 0))
+    enum_runs = dict(chunked(enum_ops, 0))
+    alloc_counts = {}
+    for (rid, oi), r in enum_rs.items():
+        o = enum_runs[rid][oi]
+        alloc_counts[o["name"]] = max(alloc_counts.get(o["name"], 0), r["n"])
     # 2. exhaustive selector sweeps (fault-free) + the same under allocation faults for a sample
     sweep = gen_sweeps(hs, cat)
     execute("sweeps", hs.exe, chunked(sweep, 100000))
@@ -625,6 +665,9 @@ def main(tier, seed):
     nplans = int(os.environ.get("VERIF_C20_PLANS", "200000" if thorough else "3000"))
     hist = gen_history(hs, rng, nplans)
     execute("histories", hs.exe, [(300000 + i, ops_) for i, ops_ in enumerate(hist)])
+    # 4b. cold starts: one fresh process per plan, first call already under an allocation failure
+    cold = gen_cold(hs, rng, int(os.environ.get("VERIF_C20_COLD", "20000" if thorough else "1200")), alloc_counts)
+    execute("cold-starts", hs.exe, [(600000 + i, ops_) for i, ops_ in enumerate(cold)], fresh=True)
     # 5. uninitialised reads: plain build under memcheck, every instance once + the sweeps
     vg_ops = gen_enumeration(hp, rng, draws=(6 if thorough else 2), faults=False) + gen_sweeps(hp, cat)
     vg_ops += [o for o in gen_value_classes(hp, rng) if thorough or o["vc"] in (0, 2, 5, 9)]
